@@ -88,7 +88,10 @@ impl HttpPrinter {
             head.extend_from_slice(CRLF);
             let mut bw = BufWriter::new(writer);
             bw.write_all(&head)?;
-            write_chunk(&mut bw, body)?;
+            if !body.is_empty() {
+                // an empty chunk would already be the terminating chunk
+                write_chunk(&mut bw, body)?;
+            }
             bw.write_all(b"0\r\n\r\n")
         } else {
             add_content_length_header(&mut head, body.len() as u64);
